@@ -373,6 +373,7 @@ def do_op(ctx, aid, oi, table, op):
         notify_n = op[4] if len(op) > 4 else None
         notify_latch = ctx.latch(op[5]) if len(op) > 5 and op[5] else None
         end_latch = ctx.latch(op[6]) if len(op) > 6 and op[6] else None
+        close_on_end = len(op) > 7 and op[7]
         state = {"n": 0}
         cbid = (aid, oi)
 
@@ -383,6 +384,12 @@ def do_op(ctx, aid, oi, table, op):
             state["n"] = n + 1
             if item is E or (type(item) is type(E) and item == E):
                 ctx.rec(aid, oi, "cb", ("end", label))
+                if close_on_end:
+                    # the usual reaction to the end of the stream: close our own end from inside the callback
+                    try:
+                        table[label].close()
+                    except (OSError, KeyError):
+                        pass
                 if end_latch is not None:
                     end_latch.set()
             else:
